@@ -83,6 +83,7 @@ type State struct {
 	definable map[int]bool
 	reads   []streamRead
 	ghostCells map[int]Value
+	guardVals map[string]Value // value of guarded fields right after the last acquisition of their guard
 	recDone map[string]bool
 	guardSnaps map[int]*MapSnap // content of guarded maps right after the last lock acquisition
 	aliasOK map[int]bool // fresh objects handed to the current callee: its results may alias them
@@ -149,6 +150,7 @@ func (st *State) clone() *State {
 	n.trail = append([]string{}, st.trail...)
 	n.reads = st.reads
 	n.ghostCells = st.ghostCells
+	n.guardVals = st.guardVals
 	n.recDone = st.recDone
 	n.guardSnaps = st.guardSnaps
 	if st.defs != nil {
@@ -232,6 +234,9 @@ type Machine struct {
 	ctxParent map[int]*Iface
 	runeSrc   map[int]*runeInfo
 	refute    bool
+	assignLocs []*Ptr
+	ownedChans map[int]bool
+	guardedMaps map[int]bool
 	onlyProp  string // when set, only clauses tagged with this property are evaluated
 	recCache  map[*ssa.Function]bool
 	recReads  map[*ssa.Function][]string
@@ -374,6 +379,20 @@ func (m *Machine) Load(st *State, p *Ptr) Value {
 	}
 	v := m.ts.Unflatten(p.Elem, &terms)
 	m.assumeWellFormed(st, p.Elem, v)
+	if _, isMap := p.Elem.Underlying().(*types.Map); isMap && p.Idx == nil {
+		for _, g := range m.P.Contracts.Guards {
+			if g.Field == p.Mem+"."+p.Path {
+				if t, isT := v.(*Term); isT {
+					m.guardedMaps[t.id] = true
+				}
+			}
+		}
+	}
+	if owner, ok := m.P.Contracts.Closers[p.Mem+"."+p.Path]; ok && owner == relName(m.fn) {
+		if t, isT := v.(*Term); isT {
+			m.ownedChans[t.id] = true
+		}
+	}
 	return v
 }
 
